@@ -483,7 +483,30 @@ class CallMixin(ExprMixin):
         raise Unsupported('dict.%s' % meth)
 
     def dict_merge(self, a: V, b: V) -> V:
-        raise Unsupported('dict.update')
+        """a.update(b) (A10): keys of a keep their positions, keys only in b follow in b's order, values of b win."""
+        if b.ty.kind == 'obj' and 'dict_items' in self.spec.fields:
+            self.safety('TypeError', smt.issub(smt.tag(b.term), smt.CLASSES['dict']), 'update_with_non_dict')
+            b = self.read_field(b.term, 'dict_items')
+        if b.ty.kind != 'dict' or a.ty.args[0] != b.ty.args[0]:
+            raise Unsupported('dict.update with %r' % (b.ty,))
+        out = fresh(a.ty, 'merged')
+        kt = a.ty.args[0].sort()
+        k, k2 = z3.Const(fresh_name('mk'), kt), z3.Const(fresh_name('mk'), kt)
+        ha, hb, ho = (lambda t: self.dict_has_term(a, t)), (lambda t: self.dict_has_term(b, t)), (lambda t: self.dict_has_term(out, t))
+        _, na, _, va, ia = self.dict_parts(a)
+        _, nb, _, vb, ib = self.dict_parts(b)
+        _, no, _, vo, io = self.dict_parts(out)
+        bval = lambda t: to_smt(coerce(from_smt(b.ty.args[1], z3.Select(vb, t)), a.ty.args[1]))
+        self.assume(self.dict_wf(out))
+        self.assume(z3.And(no >= na, no <= na + nb))
+        self.assume(z3.ForAll([k], ho(k) == z3.Or(ha(k), hb(k))))
+        self.assume(z3.ForAll([k], z3.Implies(hb(k), z3.Select(vo, k) == bval(k))))
+        self.assume(z3.ForAll([k], z3.Implies(z3.And(ha(k), z3.Not(hb(k))), z3.Select(vo, k) == z3.Select(va, k))))
+        self.assume(z3.ForAll([k], z3.Implies(ha(k), z3.Select(io, k) == z3.Select(ia, k))))
+        self.assume(z3.ForAll([k], z3.Implies(z3.And(hb(k), z3.Not(ha(k))), z3.Select(io, k) >= na)))
+        self.assume(z3.ForAll([k, k2], z3.Implies(z3.And(hb(k), z3.Not(ha(k)), hb(k2), z3.Not(ha(k2))),
+                                                  (z3.Select(io, k) < z3.Select(io, k2)) == (z3.Select(ib, k) < z3.Select(ib, k2)))))
+        return V(a.ty, out.term, a.loc)
 
     def set_method(self, recv: V, meth: str, n: ast.Call) -> V:
         if meth == 'add':
